@@ -18,6 +18,7 @@ def _t(rule_fn, **kw):
         res.scoped = bool(kw)
         return res
     run.__name__ = rule_fn.__name__
+    run.table_rule = (rule_fn, kw)
     return run
 
 
@@ -482,3 +483,37 @@ TECHNIQUE = {
     "C10": "static typestate analysis of the cancel rows and table closure (ast)",
     "C12": "static typestate analysis of the task table over with-items event forms (ast)",
 }
+
+
+# ---------------------------------------------------------------------- thorough tier
+ALL_CONTROLS = [getattr(K, n) for n in sorted(dir(K)) if n.startswith("ctl_")]
+
+
+def thorough(pid):
+    """Adequacy callback for the thorough tier of a property."""
+    from sa import adequacy as A
+    spec = PROPERTIES[pid]
+
+    def run(ctx):
+        out = {}
+        trs = [r.table_rule for r in spec["rules"] if hasattr(r, "table_rule")]
+        if trs:
+            out["tables"] = A.table_adequacy(ctx, trs)
+        # every control that the quick tier does not already run
+        extra = [c for c in ALL_CONTROLS if c not in spec.get("controls", [])]
+        mine = set()
+        for r in spec["rules"]:
+            mine.add(getattr(r, "__name__", ""))
+        res = []
+        for c in extra:
+            name, fired, detail = c(ctx)
+            res.append({"control": name, "fired": bool(fired), "detail": detail})
+        out["all_controls"] = res
+        out["controls_total"] = len(res)
+        out["controls_fired"] = sum(1 for r in res if r["fired"])
+        return out
+    return run
+
+
+for _pid in list(PROPERTIES):
+    PROPERTIES[_pid]["adequacy"] = thorough(_pid)
